@@ -379,8 +379,12 @@ def for_in(
     """
 
     def factory(_: abc.SchedulerBase) -> Observable[_T2]:
-        # the mapped iterator is created per subscription
-        mapped: Iterable[Observable[_T2]] = map(mapper, values)
+        # the mapped iterator is created per subscription; the mapper runs inside defer, so that any exception it
+        # raises (a StopIteration included, which would otherwise end the iteration silently) becomes on_error
+        def deferred(value: _T1) -> Observable[_T2]:
+            return defer(lambda _: mapper(value))
+
+        mapped: Iterable[Observable[_T2]] = map(deferred, values)
         return concat_with_iterable(mapped)
 
     return defer(factory)
